@@ -84,11 +84,16 @@ def evClause (cfg : Cfg) (x y : Ev) : Option String :=
     if lower x.data != lower y.data then some "at-rule name"
     else if preludeNorm x.data x.vals != preludeNorm y.data y.vals then some "at-rule prelude" else none
   | .endAtRule | .endRuleset => none
+  | .error =>
+    if lexs (noWs (dropSemiTok x.vals)) != lexs (noWs (dropSemiTok y.vals)) then some "raw tokens" else none
   | _ =>
-    if lexs (noWs (dropSemiTok x.vals)) != lexs (noWs (dropSemiTok y.vals)) then some "raw tokens"
-    else if x.vals.isEmpty && y.vals.isEmpty && x.data != y.data then some "raw token" else none
+    -- a raw token (`<!--`, `-->`, content of an unknown at-rule): `Values()` is not defined for it
+    if x.data != y.data then some "raw token" else none
 
-def notComment (e : Ev) : Bool := e.gt != .comment
+/-- events that are not cascade input: comments, and white space inside the block of an unknown at-rule (the
+parser reports every white-space token there; a comment between two of them makes two) -/
+def notComment (e : Ev) : Bool :=
+  e.gt != .comment && !(e.gt == .token && e.data.all Verif.Spec.CssValue.isWs)
 
 def holdsGo (cfg : Cfg) : Nat → List Ev → List Ev → List String
   | _, [], [] => []
